@@ -2,14 +2,16 @@
    PART served by the plan / build-loop model (Engine/PlanDefs.v): the counters of StatusPrinter
    (total_edges_, started_edges_, finished_edges_; running_edges_ = started - finished) as driven
    by EdgeAddedToPlan (Plan::EdgeWanted, before Build()), EdgeRemovedFromPlan (Plan::CleanNode),
-   BuildEdgeStarted (StartEdge) and BuildEdgeFinished (FinishCommand).  Quantification as in
+   BuildEdgeStarted (StartEdge) and BuildEdgeFinished (FinishCommand), and EdgeAddedToPlan again when a
+   dyndep load during the build makes an edge wanted (RefreshDyndepDependents, AddSubTarget).
+   Quantification as in
    Properties_C04.v.  Output blocks, console locking and formats are not in this model. *)
 From NinjaV Require Import Base.Bytes Engine.PlanDefs Engine.PlanProofs.
 
 (* While the build runs: finished <= started <= total, started - finished = number of running
    commands, and total = Plan::command_edges_ (EdgeAddedToPlan/EdgeRemovedFromPlan match it). *)
-Theorem C20_counters : forall g cfg rank, wf_graph g rank -> 0 < c_k cfg -> 0 < c_j cfg ->
-  forall s, reachable g cfg s -> s_phase s = PhBuild ->
+Theorem C20_counters : forall g cfg loads rank, wf_graph g rank -> 0 < c_k cfg -> 0 < c_j cfg ->
+  forall s, reachable g cfg loads s -> s_phase s = PhBuild ->
   s_finished s <= s_started s /\ s_started s <= s_total s /\
   s_started s - s_finished s = length (s_running s) /\
   s_total s = p_commands (s_plan s).
@@ -18,16 +20,16 @@ Print Assumptions C20_counters.
 
 (* On every return of Build() other than the interrupt every started command was reported
    finished ... *)
-Theorem C20_started_finished_at_exit : forall g cfg rank, wf_graph g rank -> 0 < c_k cfg -> 0 < c_j cfg ->
-  forall s code m s', reachable g cfg s -> step g cfg s (EvExit code m) = Some s' ->
+Theorem C20_started_finished_at_exit : forall g cfg loads rank, wf_graph g rank -> 0 < c_k cfg -> 0 < c_j cfg ->
+  forall s code m s', reachable g cfg loads s -> step g cfg loads s (EvExit code m) = Some s' ->
   m <> MInterrupted -> s_started s = s_finished s /\ s_finished s <= s_total s.
 Proof. exact counters_at_exit. Qed.
 Print Assumptions C20_started_finished_at_exit.
 
 (* ... and after a successful build finished = started = total (restat-pruned commands were taken
    out of the total and were never started). *)
-Theorem C20_counters_at_success : forall g cfg rank, wf_graph g rank -> 0 < c_k cfg -> 0 < c_j cfg ->
-  forall s s', reachable g cfg s -> step g cfg s (EvExit 0 MSuccess) = Some s' ->
+Theorem C20_counters_at_success : forall g cfg loads rank, wf_graph g rank -> 0 < c_k cfg -> 0 < c_j cfg ->
+  forall s s', reachable g cfg loads s -> step g cfg loads s (EvExit 0 MSuccess) = Some s' ->
   s_finished s = s_total s /\ s_started s = s_total s /\
   s_finished s' = s_finished s /\ s_total s' = s_total s /\ s_started s' = s_started s.
 Proof. exact counters_at_success. Qed.
@@ -35,30 +37,48 @@ Print Assumptions C20_counters_at_success.
 
 (* ---- non-vacuity on the example: plain success (3 commands) and success with a pruned command ---- *)
 Example C20_counters_at_success_nonvacuous :
-  exists s s', reachable ex_graph ex_cfg s /\ step ex_graph ex_cfg s (EvExit 0 MSuccess) = Some s' /\
+  exists s s', reachable ex_graph ex_cfg no_loads s /\ step ex_graph ex_cfg no_loads s (EvExit 0 MSuccess) = Some s' /\
                s_total s = 3 /\ s_finished s = 3.
 Proof.
-  destruct (run_snoc_split ex_graph ex_cfg ex_prio ex_snap (firstn 10 ex_trace_ok) (EvExit 0 MSuccess))
+  destruct (run_snoc_split ex_graph ex_cfg no_loads ex_prio ex_snap (firstn 10 ex_trace_ok) (EvExit 0 MSuccess))
     as [s [s' [H1 H2]]]; [vm_compute; reflexivity|].
-  exists s, s'. split; [apply (run_reachable _ _ _ _ _ _ ex_wf_snap H1)|]. split; [exact H2|].
+  exists s, s'. split; [apply (run_reachable _ _ _ _ _ _ _ ex_wf_snap H1)|]. split; [exact H2|].
   vm_compute in H1. injection H1 as <-. split; reflexivity.
 Qed.
 
 Example C20_pruned_nonvacuous :
-  exists s s', reachable ex_graph ex_cfg s /\ step ex_graph ex_cfg s (EvExit 0 MSuccess) = Some s' /\
+  exists s s', reachable ex_graph ex_cfg no_loads s /\ step ex_graph ex_cfg no_loads s (EvExit 0 MSuccess) = Some s' /\
                s_total s = 2 /\ s_finished s = 2 /\ s_started s = 2.
 Proof.
-  destruct (run_snoc_split ex_graph ex_cfg ex_prio ex_snap (firstn 8 ex_trace_prune) (EvExit 0 MSuccess))
+  destruct (run_snoc_split ex_graph ex_cfg no_loads ex_prio ex_snap (firstn 8 ex_trace_prune) (EvExit 0 MSuccess))
     as [s [s' [H1 H2]]]; [vm_compute; reflexivity|].
-  exists s, s'. split; [apply (run_reachable _ _ _ _ _ _ ex_wf_snap H1)|]. split; [exact H2|].
+  exists s, s'. split; [apply (run_reachable _ _ _ _ _ _ _ ex_wf_snap H1)|]. split; [exact H2|].
   vm_compute in H1. injection H1 as <-. repeat split; reflexivity.
 Qed.
 
 Example C20_counters_midbuild_nonvacuous :
-  exists s, reachable ex_graph ex_cfg s /\ s_phase s = PhBuild /\
+  exists s, reachable ex_graph ex_cfg no_loads s /\ s_phase s = PhBuild /\
             s_total s = 3 /\ s_started s = 2 /\ s_finished s = 1 /\ s_running s = [1].
 Proof.
-  destruct (is_some_run ex_graph ex_cfg ex_prio ex_snap (firstn 4 ex_trace_ok)) as [s Hs]; [vm_compute; reflexivity|].
-  exists s. split; [apply (run_reachable _ _ _ _ _ _ ex_wf_snap Hs)|].
+  destruct (is_some_run ex_graph ex_cfg no_loads ex_prio ex_snap (firstn 4 ex_trace_ok)) as [s Hs]; [vm_compute; reflexivity|].
+  exists s. split; [apply (run_reachable _ _ _ _ _ _ _ ex_wf_snap Hs)|].
   vm_compute in Hs. injection Hs as <-. repeat split; reflexivity.
+Qed.
+
+(* with a dyndep load that adds a command to the plan (EdgeAddedToPlan during the build): [dd_graph] with
+   only 0 and 2 planned at first; the load discovers the input produced by 1: total goes from 2 to 3 *)
+Example C20_dyndep_added_nonvacuous :
+  s_total (init_state dd_graph dd_cfg [] dd_snap2) = 2 /\
+  exists s s', run dd_graph dd_cfg dd_loads2 [] dd_snap2
+                 [ EvStart 0 []; EvWait; EvFinish 0 0 []; EvStart 1 []; EvWait; EvFinish 1 0 []; EvStart 2 [];
+                   EvWait; EvFinish 2 0 [] ] = Some s /\
+               step dd_graph dd_cfg dd_loads2 s (EvExit 0 MSuccess) = Some s' /\
+               s_total s = 3 /\ s_finished s = 3 /\ s_started s = 3.
+Proof.
+  split; [vm_compute; reflexivity|].
+  destruct (run_snoc_split dd_graph dd_cfg dd_loads2 [] dd_snap2
+              [ EvStart 0 []; EvWait; EvFinish 0 0 []; EvStart 1 []; EvWait; EvFinish 1 0 []; EvStart 2 [];
+                EvWait; EvFinish 2 0 [] ] (EvExit 0 MSuccess)) as [s [s' [H1 H2]]]; [vm_compute; reflexivity|].
+  exists s, s'. split; [exact H1|]. split; [exact H2|].
+  vm_compute in H1. injection H1 as <-. repeat split; reflexivity.
 Qed.
